@@ -408,6 +408,29 @@ def run_selection(scratch, sel, tier, total_jobs=16):
         threads.append(t)
     for t in threads:
         t.join()
+    # Second chance for tool failures (timeout / out of memory / driver crash under load): run
+    # those harnesses again, a few at a time and with twice the time.  A verdict is only ever
+    # replaced by the result of a complete second run of the same obligation.
+    if not os.environ.get("VERIF_NO_RETRY"):
+        retry = {}
+        for o, r in sel:
+            res = results.get((o["id"], r))
+            if res and res.get("verdict") == "undecided" and re.search(
+                    r"no per-harness output|CBMC timed out|no failed check was parsed|no verification result", res.get("reason", "")):
+                retry.setdefault(r, []).append(o)
+        for row, items in retry.items():
+            log("  kani: retrying %d harness(es) of row %s with low parallelism" % (len(items), row))
+            items2 = []
+            for o in items:
+                o2 = dict(o)
+                o2["timeout"] = 2 * (o.get("timeout") or default_timeout)
+                items2.append(o2)
+            second = {}
+            run_row(scratch, row, items2, 2, 2 * default_timeout, second, lock)
+            for k, v in second.items():
+                if v.get("verdict") in ("discharged", "failed"):
+                    v["retried"] = True
+                    results[k] = v
     if use_cache:
         for (oid, r), res in results.items():
             if res.get("cached") or res.get("verdict") not in ("discharged", "failed"):
